@@ -1,4 +1,5 @@
 """C16 - failures are loud: non-zero exit, no regex printed, no target file modified."""
+import json
 import propcheck
 
 
@@ -28,7 +29,20 @@ def main(tier):
                 if fault == 11 and allm:
                     continue
                 jobs.append(('cmd.VerifC16Fault', dict(params={'fault': fault, 'cmd': cmd, 'all': allm, 'position': posn}, unwind=40, exclude=exclude, timeout_ms=120000, terminal_obligations=(), hooks={'fixed_map_order': True})))
+    for cmd in (0, 1):
+        for kind in (0, 1):
+            for posn in (0, 1, 2):
+                jobs.append(('cmd.VerifC16RulesFilePerRule', dict(params={'cmd': cmd, 'kind': kind, 'position': posn}, unwind=40, exclude=exclude, timeout_ms=120000, terminal_obligations=(), hooks={'fixed_map_order': True})))
     jobs.append(('cmd.VerifC16FormatFault', dict(unwind=40, exclude=exclude, timeout_ms=120000, terminal_obligations=(), hooks={'fixed_map_order': True})))
     rs, viol = ck.run('faults', jobs, bounds={'fault_classes': 19, 'commands': ['update', 'compare', 'format'], 'all_position': 'first/middle/last, enumerated'})
     ck.triage(viol)
-    return ck.finish()
+    # Every scenario here has a concrete tree; the only symbolic input is the output format. How the command body ends
+    # (Fatal / Panic / returned error / normal return) is computed by the symbolic executor and, when it does not depend on
+    # the output format, folds to a constant before it reaches the solver. The evidence therefore counts scenarios, and
+    # says how many of them needed a solver query.
+    done = [r for r in rs if r['status'] == 'ok']
+    scen = {(r['harness'], json.dumps(r.get('params'), sort_keys=True)) for r in done}
+    ck.samples = [{'scenario': r.get('params'), 'harness': r['harness'].rsplit('.', 1)[-1], 'obligations_left_for_the_solver': len(r['obligations'])} for r in done[:: max(1, len(done) // 8)][:8]]
+    return ck.finish(coverage_extra={'evaluations': len(rs), 'distinct_nontrivial': len(scen), 'scenarios_decided_by_constant_folding': sum(1 for r in done if not r['obligations']),
+                                     'solver_queries': ck.queries, 'samples': ck.samples},
+                     rule='one evaluation = one fault scenario (fault class x command x single/--all x position of the faulty file) executed symbolically through the real command body on a modelled tree; non-trivial = the execution completed and reached a terminal outcome of the command body (distinct by scenario parameters); the outcome is a constant for most scenarios (concrete tree), so few solver queries remain - see scenarios_decided_by_constant_folding')
